@@ -94,7 +94,7 @@ use amq_protocol::protocol::{AMQPClass, basic, channel, connection, confirm, exc
 use crossbeam_channel as cb;
 
 struct VSlot { name: &'static str, id: u16, reply_rx: cb::Receiver<Result<ChannelMessage>>, consumers: Vec<(String, Option<cb::Receiver<ConsumerMessage>>)>,
-               ret_rx: Option<cb::Receiver<Return>>, conf_rx: Option<cb::Receiver<Confirm>>, mio_tx: Option<mio_extras::channel::SyncSender<IoLoopMessage>> }
+               ret_rx: Option<cb::Receiver<Return>>, conf_rx: Option<cb::Receiver<Confirm>>, mio_tx: Option<mio_extras::channel::SyncSender<IoLoopMessage>>, reply_log: Vec<String> }
 struct VWorld { inner: Inner, state: ConnectionState, slots: Vec<VSlot>, ch0_reply: cb::Receiver<Result<ChannelMessage>>,
                 blocked_rx: Option<cb::Receiver<ConnectionBlockedNotification>>, keep: Vec<Box<dyn std::any::Any>>, out_base: usize, results: Vec<String> }
 
@@ -122,7 +122,7 @@ fn mk_world(blocked: bool) -> VWorld {
 fn add_chan(w: &mut VWorld, name: &'static str, id: u16, tags: &[&str], ret: bool, conf: bool) {
     let (slot, rx, mio_tx) = mk_slot(id);
     w.inner.chan_slots.insert(Some(id), |_| Ok((slot, ()))).unwrap();
-    let mut vs = VSlot { name, id, reply_rx: rx, consumers: Vec::new(), ret_rx: None, conf_rx: None, mio_tx: Some(mio_tx) };
+    let mut vs = VSlot { name, id, reply_rx: rx, consumers: Vec::new(), ret_rx: None, conf_rx: None, mio_tx: Some(mio_tx), reply_log: Vec::new() };
     if ret { let (tx, rx) = cb::unbounded(); w.inner.chan_slots.get_mut(id).unwrap().return_handler = Some(tx); vs.ret_rx = Some(rx); }
     if conf { let (tx, rx) = cb::unbounded(); w.inner.chan_slots.get_mut(id).unwrap().pub_confirm_handler = Some(tx); vs.conf_rx = Some(rx); }
     for t in tags {
@@ -133,6 +133,18 @@ fn add_chan(w: &mut VWorld, name: &'static str, id: u16, tags: &[&str], ret: boo
     w.slots.push(vs);
 }
 
+fn take_replies(w: &mut VWorld, name: &str) {
+    // the caller blocked in recv() takes its reply as soon as it arrives
+    let keep = &mut w.keep;
+    let s = w.slots.iter_mut().find(|s| s.name == name).unwrap();
+    while let Ok(m) = s.reply_rx.try_recv() {
+        let m = match m {
+            Ok(ChannelMessage::ConsumeOk(t, rx)) => { keep.push(Box::new(rx.clone())); Ok(ChannelMessage::ConsumeOk(t, rx)) }
+            other => other,
+        };
+        s.reply_log.push(reply_str(m));
+    }
+}
 fn prep(w: &mut VWorld, f: AMQPFrame) { w.state.process(&mut w.inner, f).unwrap(); }
 fn ready(w: &mut VWorld) { w.out_base = w.inner.outbuf.len(); }
 
@@ -203,7 +215,10 @@ fn observe(w: &mut VWorld) -> String {
     }
     o += &format!("|out=[{}]", frames.join(","));
     for s in w.slots.iter() {
-        o += &format!("|{}{{present={},reply={}", s.name, w.inner.chan_slots.get(s.id).is_some(), drain(&s.reply_rx, reply_str));
+        let mut rep = s.reply_log.clone();
+        let rest = drain(&s.reply_rx, reply_str);
+        if rest.len() > 2 { rep.push(rest[1..rest.len() - 1].to_string()); }
+        o += &format!("|{}{{present={},reply=[{}]", s.name, w.inner.chan_slots.get(s.id).is_some(), rep.join(","));
         for (i, (_, rx)) in s.consumers.iter().enumerate() {
             if let Some(rx) = rx { o += &format!(",c{}={}", i, drain(rx, cm_str)); }
         }
@@ -329,7 +344,10 @@ def engine_obs(prog, s, w, results, nm, base_items=1):
         if name == 'ch0':
             continue
         e = slot_entry(w, name)
-        o += f"|{name}{{present={'true' if nm.b(e[2]) else 'false'},reply={engine_queue(info['reply'], lambda m: engine_reply_str(prog, m, nm))}"
+        rep = [engine_reply_str(prog, m_, nm) for m_ in info.get('reply_log', [])] + [engine_reply_str(prog, m_, nm) for m_ in queue_msgs(info['reply'])]
+        if info['reply'].senders == 0:
+            rep.append('closed')
+        o += f"|{name}{{present={'true' if nm.b(e[2]) else 'false'},reply=[{','.join(rep)}]"
         for i, (cn, (t, cq)) in enumerate(info['consumers'].items()):
             o += f",c{i}={engine_queue(cq, lambda m: engine_cm_str(prog, m, nm))}"
         if info['ret'] is not None and nm.b(info['ret'].rx_alive):
@@ -406,6 +424,8 @@ def build_test(prog, w, nm, shape, infoA, events, blocked=True):
             if fr is None:
                 return None
             lines.append(f"    step(&mut w, {fr});")
+        elif ev[0] == 'take':
+            lines.append(f"    take_replies(&mut w, \"{ev[1]}\");")
         elif ev[0] == 'drop':
             if ev[2] == 'blocked':
                 lines.append("    w.blocked_rx = None;")
